@@ -57,6 +57,7 @@ def spec_route(tree, x):
 
 class TreePredict(SxContract):
     fn = "gemclus.tree.kauri.Tree.predict"
+    boundaries = True       # <= versus <: points ON a threshold / cut are part of the contract, not a measure-zero set
     safety = False
 
     def __init__(self, seq, feats, d, thr_kind):
